@@ -813,6 +813,8 @@ int bufr_save_template( const char *filename, BUFR_Template *tmplt )
    BufrDescValue *code;
    int           count;
    char          errmsg[256];
+   char         *buf;
+   int           len;
    FILE         *fp;
 
    fp = fopen( filename, "w" );
@@ -834,11 +836,17 @@ int bufr_save_template( const char *filename, BUFR_Template *tmplt )
             fprintf( fp, ",VALUE=" );
          for (j = 0; j < code->nbval ; j++ )
             {
-            errmsg[0] = '\0';
-            if (bufr_print_value( errmsg, code->values[j] ))
+            buf = errmsg;
+            len = 0;
+            if (code->values[j] && (code->values[j]->type == VALTYPE_STRING)
+               && bufr_value_get_string( code->values[j], &len ) && (len + 3 > (int)sizeof(errmsg)))
+               buf = (char *)malloc( (len + 3) * sizeof(char) );   /* quotes and terminator */
+            buf[0] = '\0';
+            if (bufr_print_value( buf, code->values[j] ))
                {
-               fprintf( fp, "%s\n", errmsg );
+               fprintf( fp, "%s\n", buf );
                }
+            if (buf != errmsg) free( buf );
             if ((j > 0)&&((j+1) < code->nbval))
                fprintf( fp, "," );
             }
